@@ -15,6 +15,9 @@ INVARIANT NoUncaughtError
 INVARIANT ReturnsOwnPlan
 INVARIANT SizeBoundRestored
 INVARIANT NoDuplicateKeys
+INVARIANT CacheFromCalls
+INVARIANT PlanInHand
+INVARIANT TransientBound
 INVARIANT Export
 {extra}
 CHECK_DEADLOCK FALSE
@@ -56,13 +59,30 @@ def run(ck):
                               "sched": [list(x) for x in sc]})
     # larger instances of the protocol, explored under a VIEW that hides the schedule history (invariants only)
     VCFG = ("SPECIFICATION Spec\nCONSTANTS\n  Threads = {threads}\n  Prog <- {prog}\n  MaxSize = {size}\n  PopGuarded = TRUE\nVIEW NoHistory\n"
-            "INVARIANT NoUncaughtError\nINVARIANT ReturnsOwnPlan\nINVARIANT SizeBoundRestored\nINVARIANT NoDuplicateKeys\nCHECK_DEADLOCK FALSE\n")
+            "INVARIANT NoUncaughtError\nINVARIANT ReturnsOwnPlan\nINVARIANT SizeBoundRestored\nINVARIANT NoDuplicateKeys\n"
+            "INVARIANT CacheFromCalls\nINVARIANT PlanInHand\nINVARIANT TransientBound\nCHECK_DEADLOCK FALSE\n")
     big = [("ProgC", "{1, 2, 3, 4}"), ("ProgD", "{1, 2, 3}")] + ([] if q else [("ProgE", "{1, 2, 3, 4}"), ("ProgF", "{1, 2, 3, 4, 5}")])
     for pname, threads in big:
         for size in ((1, 2) if q else (0, 1, 2, 3, 9)):
             cfg = os.path.join(ck.scratch, f"MC_CacheV_{pname}_{size}.cfg")
             open(cfg, "w").write(VCFG.format(threads=threads, prog=pname, size=size))
             ck.model("MC_CacheI.tla", cfg, workers=runner.NCPU, timeout=3000)
+    # negative controls: the model must reject (i) the original unguarded trim (defect F14: three threads, cache size 1) and
+    # (ii) a key that forgets an argument (two plans under one key) - otherwise the invariants above would be vacuous
+    controls = []
+    for pname, threads, size, guarded, inv in (("ProgB", "{1, 2, 3}", 1, "FALSE", "NoUncaughtError"),
+                                               ("ProgBad", "{1, 2}", 2, "TRUE", "ReturnsOwnPlan"),
+                                               ("ProgBad", "{1, 2}", 2, "TRUE", "PlanInHand")):
+        cfg = os.path.join(ck.scratch, f"MC_CacheN_{pname}_{inv}.cfg")
+        open(cfg, "w").write(f"SPECIFICATION Spec\nCONSTANTS\n  Threads = {threads}\n  Prog <- {pname}\n  MaxSize = {size}\n"
+                             f"  PopGuarded = {guarded}\nVIEW NoHistory\nINVARIANT {inv}\nCHECK_DEADLOCK FALSE\n")
+        r, st = ck.model("MC_CacheI.tla", cfg, workers=1, expect_ok=False)
+        ck.cov["models"][-1]["negative_control"] = True    # stops at the expected counterexample, hence not "complete"
+        hit = f"Invariant {inv} is violated" in r["out"]
+        controls.append({"instance": pname, "PopGuarded": guarded, "invariant": inv, "violated_as_expected": hit})
+        if not hit:
+            ck.problems.append(f"negative control {pname}/{inv} was not rejected by the cache model")
+    ck.cov["negative_controls"] = controls
     ck.cov["schedules_enumerated_by_tlc"] = nsched
     ck.cov["rule"] = ("(a) TLC explores every interleaving of the five dict operations of the cache protocol for 2 threads x 2 calls "
                       "and 3 threads x 1 call at cache sizes 0/1/2/large; every complete schedule (quick: 60 per instance) is forced "
